@@ -120,6 +120,8 @@ def check_doc(c, d, res, pool, doc_pool, u):
     size = common.doc_size(model, d)
     base = {"schema": c.id, "doc": d}
     res.states += 1
+    if jkey(node.to_json()) != jkey(d):
+        res.violate("c05.node.from_json-lossy", base, jkey(node.to_json())[:300], jkey(d)[:300], size=size)
     check_obj("node", node, lambda j: adapters.Node.from_json(schema, j), lambda a, b: a.eq(b), res, base, size)
     # string input is accepted too
     try:
